@@ -63,6 +63,11 @@ type signFlavor[G algebra.PrimeGroupElement[G, S], S algebra.PrimeFieldElement[S
 	libVerify func(pk G, msg []byte, sig any) error
 	// refVerify is the independent verifier (reference arithmetic / stdlib).
 	refVerify func(pk G, msg []byte, sig any) error
+	// omni is an omniscient check given the reference-reconstructed secret key
+	// (used where no independent verifier exists).
+	omni func(x *big.Int, pk G, msg []byte, sig any) error
+	// nonEmptyMsg: the scheme documents that it refuses empty messages.
+	nonEmptyMsg bool
 	// nonce extracts the public nonce part (R or r) of a signature, for C07.
 	nonce func(sig any) []byte
 	// encPartial / decPartial: wire form of a partial signature on its way to the aggregator.
